@@ -417,10 +417,20 @@ parse_next_record_header:
     if (innerType == SSL_RECORD_TYPE_HANDSHAKE)
     {
 	unsigned char *p_start = p;
+        psBool_t recordWasProtected = DECRYPTING_RECORDS(ssl);
         end = p + ptLen;
         /* Parse handshake messages until buffer runs out */
         while (p != end)
         {
+            /* Handshake messages MUST NOT span key changes (RFC 8446, 5.1):
+               once a message of an unprotected record has activated the
+               read keys, nothing more may be taken from that record. */
+            if (!recordWasProtected && DECRYPTING_RECORDS(ssl))
+            {
+                ssl->err = SSL_ALERT_UNEXPECTED_MESSAGE;
+                psTraceErrr("Plaintext handshake data after key change\n");
+                goto encodeResponse;
+            }
             rc = tls13ParseHandshakeMessage(ssl,
                     &p, end);
             if (rc < 0)
